@@ -6,6 +6,7 @@
 mod corpus;
 mod dispatch;
 mod exec;
+mod isolate;
 mod oracle;
 mod plan;
 mod search;
@@ -22,7 +23,7 @@ fn main() {
         Some("check") => search::check(&args),
         Some("replay") => search::replay(&args),
         Some("range") => search::range(&args),
-        Some("plan-exec") => search::plan_exec(&args),
+        Some("plan-exec") => isolate::plan_exec(&args),
         Some("crash-triage") => search::crash_triage(&args),
         Some("model") => {
             for m in dispatch::MODEL {
